@@ -652,8 +652,9 @@ fn inst_key<'tcx>(tcx: TyCtxt<'tcx>, inst: Instance<'tcx>) -> String {
         _ => "shim:",
     };
     format!(
-        "{}{}|{}",
+        "{}{}@{}|{}",
         kind,
+        tcx.crate_name(inst.def_id().krate),
         tcx.def_path_str(inst.def_id()),
         inst.args.iter().map(|a| a.to_string()).collect::<Vec<_>>().join(",")
     )
